@@ -1,18 +1,18 @@
-SPECIFICATION Spec
+SPECIFICATION SimSpec
 CONSTANTS
-  WorkerCpus <- J_Workers
-  WorkerGroup <- J_Groups
-  Menu <- J_Menu
-  OpenJobs <- J_Open
-  Classes <- J_Classes
-  MaxLosses = 2
+  WorkerCpus <- O_Workers
+  WorkerGroup <- O_Groups
+  Menu <- O_Menu
+  OpenJobs <- O_Open
+  Classes <- O_Classes
+  MaxLosses = 0
   MaxCancels = 1
   MaxFails = 1
   MaxLaunchFails = 0
   PfReserve = 0
-  PfMax = 0
-  Eager = TRUE
-  Journaling = TRUE
+  PfMax = 1
+  Eager = FALSE
+  Journaling = FALSE
 CHECK_DEADLOCK FALSE
 INVARIANTS
   NoPanic
@@ -45,12 +45,3 @@ INVARIANTS
   C14_NoAbortWithin
   C05_MnExclusive
   C05_MnWorkersIdle
-  C01_OutcomeAtRest
-  C02_QuiescentOk
-  J_RestoreSucceeds
-  J_OutcomesRestored
-  J_InstFresh
-  J_CrashKept
-  J_DepsConsistent
-PROPERTIES
-  StepProps
